@@ -78,6 +78,8 @@ Example format_list_sample :
 Proof. vm_compute. reflexivity. Qed.
 
 (* ============================== counting ==================================================== *)
+Close Scope N_scope.
+Open Scope nat_scope.
 
 (* CountersTable::countNode with its cache of counted-node vectors (getPreviouslyCounted,
    appendBtoFList): for every node type, every getTargetNode / getPreviousNode whose steps move
@@ -86,8 +88,8 @@ Proof. vm_compute. reflexivity. Qed.
 Theorem counters_history_independent :
   forall (X : Type) (eqb after : X -> X -> bool) (target_of prev : X -> option X) (key fuel_of : X -> nat),
     (forall a b, eqb a b = true <-> a = b) ->
-    (forall x y, prev x = Some y -> key y < key x) ->
-    (forall n t, target_of n = Some t -> key t < fuel_of n) ->
+    (forall x y, prev x = Some y -> (key y < key x)%nat) ->
+    (forall n t, target_of n = Some t -> (key t < fuel_of n)%nat) ->
     forall (h : list X) (n : X),
     exists tbl tbl',
       run_hist X eqb after target_of prev fuel_of [] h = Some tbl /\
